@@ -434,7 +434,11 @@ class _Exporter:
                 text += ")"
                 attributes.append((at.name, text))
                 continue
-            attributes.append((at.name, repr(value)))
+            text = repr(value)
+            if at.type in (onnx.AttributeProto.FLOAT, onnx.AttributeProto.FLOATS):
+                # repr prints non-finite floats as the bare names nan / inf
+                text = text.replace("nan", "np.nan").replace("inf", "np.inf")
+            attributes.append((at.name, text))
 
         return ", ".join(f"{k}={v}" for k, v in attributes)
 
